@@ -57,7 +57,11 @@ def install_mem():
 
 
 KINDS = ('idx', 'neg', 'np', 'key', 'slice', 'iter', 'part', 'copy', 'pf2', 'pf1',
-         'items', 'negslice')
+         'items', 'negslice', 'via')
+# 'via': a full iteration through one of the copying consumption paths of
+# vlib/vias.py (copy, frozen copy, lazy apply, profiling wrapper ...): they all
+# share the one cache
+from ..vias import COPYING, through
 
 
 def steps_for(n):
@@ -66,6 +70,10 @@ def steps_for(n):
         for kind in KINDS:
             if kind in ('iter', 'copy', 'pf2', 'pf1', 'items'):
                 out.append((kind, 0, h))
+            elif kind == 'via':
+                for i in range(len(COPYING)):
+                    if (i + h) % 2 == 0 or n > 3:
+                        out.append((kind, i, h))
             else:
                 for i in range(n):
                     out.append((kind, i, h))
@@ -74,6 +82,7 @@ def steps_for(n):
 
 class World:
     def __init__(self, ld, n, keep='8 GB', upstream='map'):
+        self.ld = ld
         self.n = n
         self.keys = [f'k{i}' for i in range(n)]
         self.counter = itertools.count()
@@ -130,6 +139,11 @@ class World:
             return list(enumerate(hd.prefetch(2, 4, 't')))
         if kind == 'pf1':
             return list(enumerate(hd.prefetch(1, 2)))
+        if kind == 'via':
+            import warnings
+            with warnings.catch_warnings():
+                warnings.simplefilter('ignore')
+                return list(enumerate(through(self.ld, hd, COPYING[i % len(COPYING)])))
         raise ValueError(kind)
 
 
